@@ -322,6 +322,8 @@ func (r Ring) AutomorphismNTTWithIndexThenAddLazy(p1 Poly, index []uint64, p2 Po
 
 // ExtendBasisSmallNormAndCenter extends a small-norm polynomial polQ in R_Q to a polynomial
 // polQP in R_QP.
+// The value of each coefficient is read off the first limb of polQ: the infinity norm of polQ
+// must be smaller than Q[0]/2 (it may exceed the moduli of P).
 func (r Ring) ExtendBasisSmallNormAndCenter(polyInQ ring.Poly, levelP int, polyOutQ, polyOutP ring.Poly) {
 	var coeff, Q, QHalf, sign uint64
 	Q = r.RingQ.SubRings[0].Modulus
@@ -345,7 +347,10 @@ func (r Ring) ExtendBasisSmallNormAndCenter(polyInQ ring.Poly, levelP int, polyO
 		}
 
 		for i, pi := range P[:levelP+1] {
-			polyOutP.Coeffs[i][j] = (coeff * sign) | (pi-coeff)*(sign^1)
+			// c = |coeff| mod pi (the norm may exceed pi); neg = -c mod pi with -0 = 0
+			c := coeff % pi
+			neg := (pi - c) * ((c | -c) >> 63)
+			polyOutP.Coeffs[i][j] = (c * sign) | neg*(sign^1)
 		}
 	}
 }
